@@ -414,8 +414,9 @@ class _ScopeContext:
                     while (sent := (yield f)) is not None:
                         subrecurse = sent
 
-                    if f.a is not a:  # node was removed or replaced (maybe through a parent) while we were yielded, `gen` knows how to deal with that
-                        continue
+                    if f.a is not a:  # node was removed or replaced while we were yielded
+                        if not (a := f.a):  # removed (maybe through a parent), `gen` knows how to deal with that
+                            continue
 
                 if subrecurse is True:  # user did send(True) so walk unconditionally
                     yield from f.walk(all, self_=False, back=back)  # if the user did send(True) (subrecurse=True) then we want to recurse uncondintionally (scope=False), otherwise subrecurse=1 and continue walking with scope=True
